@@ -745,6 +745,13 @@ class ComponentState(object):
 
             self.notifyPostMortem.subscribe(on_next=final_state, on_error=on_error_notifyPostMortem)
             stop_engine()
+
+            # VV: The engine may have exited on its own after the state check above but before the subscription to
+            # notifyPostMortem (which does not replay past notifications): the POSTMORTEM notification is gone, kill()
+            # was a no-op, and the controller ignores POSTMORTEM notifications of components with finishCalled set.
+            # Nobody would ever record the final state. Recording it twice is harmless (see _set_final_state()).
+            if stopEngine and self.controllerState is None and self.engine.isAlive() is False:
+                final_state(None)
         else:
             self._set_final_state(finalState)
             if stopEngine:
